@@ -55,9 +55,10 @@ CLAIMED.update({
  "C02": C("closure of plain data under every entry of the real function table (enumerated at run time, compared with the anchored set) and "
           "under every node kind, attribute-/format-like templates through SqParser.eval; every explored path runs behind CrossHair's audit wall.",
           "Argument shapes from a table (lists <= 3); C builtins as CrossHair models them; regex builtins on concrete strings only; structural induction.",
-          XH + ": closure step per builtin and per node kind, audit wall for I/O", "DESIGN §6 C02"),
+          XH + ": closure step per builtin (incl. builtins applied to builtins, spy lambdas) and per node kind; audit wall plus an audit hook on error paths for I/O", "DESIGN §6 C02, §11.7"),
  "C05": C("REDUCED SCOPE - with the regex module replaced by a recording stub, every path of match/match_groups/match_all enters the engine "
-          "only with timeout in (0, 0.1] and at most twice.",
+          "only with timeout in [0, 0.1] and at most twice; every re/regex module and precompiled pattern reachable from functions.py is stubbed, "
+          "clock readings are arbitrary non-decreasing instants.",
           "The timing claim itself rests on the regex module honouring timeout=; pattern compilation is not covered.",
           XH + " with a recording stub for the regex module", "DESIGN §6 C05"),
  "C07": C("differential symbolic execution of the real evaluator against spec/refsem.py (written from the property text): per operator over "
@@ -91,8 +92,9 @@ CLAIMED.update({
           XH, "DESIGN §6 C18"),
 })
 LRC = "SMT chart (z3, bit-blast + SAT) of the run of the real LALR tables over a symbolic token string"
-CLAIMED["C06"] = C("for ALL token strings up to the bound: acceptance by the real LALR tables == derivability in the productions with the "
-                   "operator-table filters of the property; no accepted string groups a parent/child pair against the table; encoder validated "
+CLAIMED["C06"] = C("for ALL token strings up to the bound: acceptance by the real LALR tables == derivability in the published grammar "
+                   "(independent copy in spec/grammar_ref.json) with the operator-table filters of the property; the lexer's master regex tokenises "
+                   "every text of up to W characters like the published token definitions (LXC); no accepted string groups a parent/child pair against the table; encoder validated "
                    "against the real parser every run.",
                    "Bounds: full alphabet L<=6 (quick) / 8 (thorough), operator slice 7/9, bracket slice 8/10, statement slice 7/9. PLY's driver loop is "
                    "modelled by the chart rules (validated, not executed symbolically); grouping facts the property does not spell out are not demanded.",
